@@ -16,12 +16,12 @@ import lu_cases as LC
 COQ_PROPS = 'props/C15.v'
 PARTIAL = ('proved for every size N over any commutative ring with partial inverse (plain-number fields and the dual '
            'numbers value + components): matmul/dot = sum of products, transpose permutes, calls write only fresh '
-           'copies, ludet = parity x product of pivots, and _lubksb solves a.x = b GIVEN the decomposition invariant '
+           'copies, ludet = parity x product of pivots, and _lubksb solves a.x = b for EVERY right-hand side (zero values '
+           'carrying uncertainty included, after the repair of C15-1) GIVEN the decomposition invariant '
            'P.a = L.U of ludcmp as a hypothesis (C15_solve_partial; the invariant itself is re-checked by execution on '
-           'every correspondence case through the bit-exact model and by exact-rational examples, not proved for all N); '
+           'every correspondence case through the bit-exact model and by exact-rational / dual-number examples, not proved for all N); '
            'GTC ureal arithmetic (generated operator bodies, over the reals) is shown to be dual-number arithmetic (C15_un_to_D, ureal-ureal operands); '
-           'the full statement is refuted on the dual numbers (C15_solve_refuted: zero-valued right-hand sides carrying '
-           'uncertainty) and proved under the restriction that the zero test is exact; det = Leibniz determinant with '
+           'det = Leibniz determinant with '
            'cofactor sensitivities, the left-inverse equation inv(a).a = I, and complex / uncertain-complex elements are '
            'covered only by the oracle search, not by the model')
 ASSUMPTIONS = ['rounding error of float arithmetic is not bounded by proof (theorems are over exact rings)',
@@ -46,12 +46,10 @@ def search(rng, tier, broken):
     return {'tried': tried, 'failing': None}
 
 def is_known(f):
-    """C15-1: a right-hand side whose value is 0.0 while it carries uncertainty (solve / invab);
-    C15-2: a Python complex element whose real or imaginary part is exactly 1.0 meets an uncertain real
+    """C15-2: a Python complex element whose real or imaginary part is exactly 1.0 meets an uncertain real
     that is a declared intermediate (result()): lib._mul/_rmul build an UncertainComplex from rhs itself and a
-    new object and its constructor asserts (AssertionError, seen through numpy's dot as SystemError)"""
-    if f.get('fn') in ('solve', 'invab') and f.get('rhs_zero_uncertain'):
-        return True
+    new object and its constructor asserts (AssertionError, seen through numpy's dot as SystemError).
+    (C15-1, zero-valued right-hand sides carrying uncertainty, is FIXED: such inputs are failures again.)"""
     why = str(f.get('why', ''))
     if ('AssertionError' in why or 'SystemError' in why):
         elems = LC.flat_descr(f.get('a')) + LC.flat_descr(f.get('b'))
@@ -71,7 +69,8 @@ def replay(payload):
 
 # ---------------------------------------------------------------- known findings
 def kf_lubksb_zero_rhs():
-    """la.solve with b[0] = ureal(0,1): the residual a.x - b keeps a component 0.5 w.r.t. b[0]"""
+    """regression check of the fixed finding C15-1: la.solve with b[0] = ureal(0,1) used to leave a
+    residual component 0.5 of a.x - b w.r.t. b[0] (_lubksb tested `sum != 0.0` on the value)"""
     from GTC import la, core, reporting
     new_context(91)
     b0 = core.ureal(0.0, 1.0); b1 = core.ureal(1.0, 0.1)
